@@ -333,6 +333,10 @@ StepResult(st, o, c, sc) ==
           why |-> IF o.oc \notin {"ok", "parse_error", "runtime_error"} THEN "outcome outside the alphabet: " \o o.oc
                   \* a text that can only go on by running a method on an object of another module (C17)
                   ELSE IF Has(st, "must_fail") /\ o.oc = "ok" THEN "the program completed although it calls a method on an object of another module"
+                  \* the module's own log of the step: which events (create / method / destroy), in order; no method on a destroyed object
+                  ELSE IF Has(st, "expect_ev") /\ [j \in DOMAIN o.ev |-> o.ev[j].e] # st.expect_ev
+                    THEN "the module saw other events than the program implies: " \o ToJson([j \in DOMAIN o.ev |-> o.ev[j].e])
+                  ELSE IF Has(st, "expect_ev") /\ \E j \in DOMAIN o.ev : o.ev[j].e = "method" /\ ~o.ev[j].live THEN "a method ran on a destroyed object"
                   ELSE IF ~NoResidue(o) THEN "control state left behind" ELSE ""]
     [] st.op \in {"exec", "step"} /\ Has(st, "maybe_reject") ->
          \* a text derived by cutting/corrupting a valid program: if it is rejected nothing may have changed;
